@@ -46,6 +46,7 @@ type Model struct {
 	inv     *nonnegInv
 	nilable *nilableInfo
 	nilRet  map[*ssa.Function]string
+	effects *effectAnalysis
 	invDone bool
 	fwTrans map[*ssa.Function]map[fieldID]bool
 }
